@@ -6,7 +6,7 @@ use indexmap::IndexMap;
 
 use crate::{
     Data, Executor, IntrospectionMode, QueryEnv, Request, Response, SDLExportOptions, SchemaEnv,
-    ServerError, ServerResult, ValidationMode,
+    ServerError, ServerResult, ValidationMode, Value,
     dynamic::{
         DynamicRequest, FieldFuture, FieldValue, Object, ResolverContext, Scalar, SchemaError,
         Subscription, TypeRef, Union, field::BoxResolverFn, resolve::resolve_container,
@@ -168,10 +168,25 @@ impl SchemaBuilder {
         }
         update_interface_possible_types(&mut self.types, &mut registry);
 
-        // create system scalars
-        for ty in ["Int", "Float", "Boolean", "String", "ID"] {
-            self.types
-                .insert(ty.to_string(), Type::Scalar(Scalar::new(ty)));
+        // create system scalars; a resolver value of another kind is a field error
+        // (`null` stays acceptable, it is how a resolver returns "no value")
+        fn is_integer(value: &Value) -> bool {
+            matches!(value, Value::Number(n) if n.is_i64() || n.is_u64())
+        }
+        let system_scalars: [(&str, fn(&Value) -> bool); 5] = [
+            ("Int", |value| value == &Value::Null || is_integer(value)),
+            ("Float", |value| matches!(value, Value::Null | Value::Number(_))),
+            ("Boolean", |value| matches!(value, Value::Null | Value::Boolean(_))),
+            ("String", |value| matches!(value, Value::Null | Value::String(_))),
+            ("ID", |value| {
+                matches!(value, Value::Null | Value::String(_)) || is_integer(value)
+            }),
+        ];
+        for (ty, validator) in system_scalars {
+            self.types.insert(
+                ty.to_string(),
+                Type::Scalar(Scalar::new(ty).validator(validator)),
+            );
         }
 
         // create introspection types
